@@ -9,7 +9,7 @@ import warnings
 
 from .common import Oracle, Suite, errname, hx, merge
 
-GEN_UNITS = []
+GEN_UNITS = ["Apache"]
 LEAN_TARGETS = ["PasslibVerif.Props.C16"]
 ASSUMPTIONS = [
     "CryptContext.verify_and_update / htdigest.verify are parameters of the model (decided under C04 / C01); here they enter as the table of answers the real context gave",
